@@ -11,8 +11,9 @@ import (
 // Types instantiates am types as llir types. Each Types value creates its own,
 // disjoint object graph; identified struct types are created once per name.
 type Types struct {
-	U     *am.Universe
-	named map[string]*types.StructType
+	U      *am.Universe
+	named  map[string]*types.StructType
+	guards []guard
 }
 
 // NewTypes returns an instantiator for the universe u.
@@ -76,6 +77,7 @@ func (ts *Types) Type(t *am.Type) types.Type {
 		for _, f := range t.Fields {
 			fs = append(fs, ts.Type(f))
 		}
+		fs = ts.guarded(fs)
 		s := types.NewStruct(fs...)
 		s.Packed = t.Packed
 		return s
@@ -84,6 +86,7 @@ func (ts *Types) Type(t *am.Type) types.Type {
 		for _, p := range t.Params {
 			ps = append(ps, ts.Type(p))
 		}
+		ps = ts.guarded(ps)
 		f := types.NewFunc(ts.Type(t.Ret), ps...)
 		f.Variadic = t.Variadic
 		return f
@@ -112,4 +115,43 @@ func TypeName(name string) string {
 		return `"` + name + `"`
 	}
 	return name
+}
+
+// guard remembers a slice handed to a constructor together with the element that follows it in its
+// backing array.
+type guard struct {
+	full     []types.Type
+	n        int
+	sentinel types.Type
+	elems    []types.Type
+}
+
+// guarded returns a copy of list that has one element of spare capacity, holding a sentinel: what a client
+// gets when it passes a prefix of a longer slice (`types.NewFunc(ret, all[:k]...)`). A library function
+// that appends to the slice it was given, instead of copying it, overwrites the sentinel (and in a real
+// client the next parameter of another type); GuardsIntact reports that.
+func (ts *Types) guarded(list []types.Type) []types.Type {
+	n := len(list)
+	full := make([]types.Type, n+1)
+	copy(full, list)
+	sentinel := &types.LabelType{TypeName: "verif.sentinel"}
+	full[n] = sentinel
+	ts.guards = append(ts.guards, guard{full: full, n: n, sentinel: sentinel, elems: append([]types.Type{}, list...)})
+	return full[: n : n+1]
+}
+
+// GuardsIntact returns "" if no slice handed to a constructor was written to (neither its elements nor the
+// element behind its end), else a description.
+func (ts *Types) GuardsIntact() string {
+	for _, g := range ts.guards {
+		if g.full[g.n] != g.sentinel {
+			return "the element behind the end of a field or parameter slice given to a constructor was overwritten (the library appended to the caller's slice)"
+		}
+		for i, e := range g.elems {
+			if g.full[i] != e {
+				return "an element of a field or parameter slice given to a constructor was replaced"
+			}
+		}
+	}
+	return ""
 }
